@@ -385,7 +385,8 @@ impl BoundSock {
             let e = std::io::Error::last_os_error();
             tries += 1;
             // EADDRNOTAVAIL: the previous connection of this 4-tuple is still being torn down
-            if e.raw_os_error() == Some(libc::EADDRNOTAVAIL) && tries < 100 {
+            // (after an orderly FIN close the old connection sits in TIME_WAIT: reusable on loopback after about one second)
+            if e.raw_os_error() == Some(libc::EADDRNOTAVAIL) && tries < 400 {
                 std::thread::sleep(Duration::from_millis(10));
                 continue;
             }
@@ -457,6 +458,24 @@ impl Client {
     pub fn get(&mut self, target: &str) -> Result<Resp, String> {
         self.send_get(target)?;
         self.recv()
+    }
+    /// orderly close: FIN instead of the RST that dropping the client sends (SO_LINGER 0 is switched off first); waits until the
+    /// proxy has closed its side too (at most 3 s)
+    pub fn close_fin(mut self) {
+        use std::os::fd::AsRawFd as _;
+        let lg = libc::linger { l_onoff: 0, l_linger: 0 };
+        unsafe {
+            libc::setsockopt(self.s.as_raw_fd(), libc::SOL_SOCKET, libc::SO_LINGER, &lg as *const _ as *const libc::c_void, std::mem::size_of::<libc::linger>() as u32);
+        }
+        let _ = self.s.shutdown(std::net::Shutdown::Write);
+        let _ = self.s.set_read_timeout(Some(Duration::from_secs(3)));
+        let mut tmp = [0u8; 1024];
+        loop {
+            match self.s.read(&mut tmp) {
+                Ok(0) | Err(_) => break,
+                Ok(_) => {}
+            }
+        }
     }
 }
 
